@@ -114,6 +114,12 @@ MUTANTS = [
      "            try:\n                threading.Thread(target=runRestart).start()"),
     ('c13-engine-reported-dead-while-its-monitor-is-inside-an-iteration-unfixed', 'C13', 'c13', 1500, 'python/experiment/runtime/engine.py',
      "        if self.lastExecution is False and self._iterationInProgress is False:\n", "        if self.lastExecution is False:\n"),
+    ('c12-final-state-published-before-the-engine-is-told-unfixed', 'C12', 'c12', 4000, 'python/experiment/runtime/workflow.py',
+     ["        if engineIsRunning is False and stopEngine:\n", "        else:\n            self.controllerState = finalState\n\n    def suspend(self):"],
+     ["        if False:\n", "        else:\n            self.controllerState = finalState\n            if stopEngine:\n                self.engine.shutdown()\n\n    def suspend(self):"]),
+    ('c02-finish-waits-for-the-notification-only-unfixed', 'C02', 'c02', 700, 'python/experiment/runtime/workflow.py',
+     "                reactivex.interval(5.0).pipe(\n                    op.take_while(lambda _: self.controllerState not in final_states)",
+     "                reactivex.empty().pipe(\n                    op.take_while(lambda _: self.controllerState not in final_states)"),
     ('c14-instance-description-written-in-place', 'C14', 'c14rt', 192, 'python/experiment/model/conf.py',
      "        temp_file = '%s.%s.tmp' % (instance_file, uuid.uuid4())\n", "        temp_file = instance_file\n"),
     ('c14-status-written-in-place', 'C14', 'c14rt', 192, 'python/experiment/model/data.py',
